@@ -332,33 +332,32 @@ Proof.
 Qed.
 
 (* ---------------------------------------------------------------- C34 over the simulator *)
-Lemma sim_astep_applied : forall s t o s', sim_astep s t = Ok (o, s') ->
+Lemma sim_astep_applied : forall nw s t o s', sim_astep nw s t = Ok (o, s') ->
   sa_applied s' = sa_applied s ++ fst o /\
   (forall r snap, In (r, snap) (snd o) -> snap = sa_applied s').
 Proof.
-  intros s t o s' H. unfold sim_astep in H. inv_bind H as [[hs' outs] rest].
-  destruct outs as [|[wout wf] [|[rout rf] [|]]]; try discriminate.
+  intros nw s t o s' H. unfold sim_astep in H. inv_bind H as [[hs' outs] rest].
   inversion H; subst; clear H. cbn. split; [reflexivity|].
   intros r snap Hin. apply in_map_iff in Hin. destruct Hin as [x [Hx _]]. inversion Hx; reflexivity.
 Qed.
 
-Lemma run_sim_atomic_incl : forall sc s obs j acks resps r snap,
-  run_sim_atomic s sc = Ok obs ->
+Lemma run_sim_atomic_incl : forall nw sc s obs j acks resps r snap,
+  run_sim_atomic nw s sc = Ok obs ->
   nth_error obs j = Some (acks, resps) -> In (r, snap) resps -> incl (sa_applied s) snap.
 Proof.
   induction sc as [|t sc IH]; intros s obs j acks resps r snap H Hn Hin; cbn [run_sim_atomic] in H.
   - inversion H; subst. destruct j; discriminate.
   - inv_bind H as [o s']. inv_bind H as os. inversion H; subst; clear H.
-    destruct (sim_astep_applied _ _ _ _ E) as [HA HS]. destruct j as [|j]; cbn [nth_error] in Hn.
+    destruct (sim_astep_applied _ _ _ _ _ E) as [HA HS]. destruct j as [|j]; cbn [nth_error] in Hn.
     + injection Hn as Ho. subst o. cbn [fst snd] in *. rewrite (HS _ _ Hin), HA. apply incl_appl, incl_refl.
     + specialize (IH _ _ _ _ _ _ _ E0 Hn Hin). intros x Hx. apply IH. rewrite HA. apply in_or_app. left; exact Hx.
 Qed.
 
-(* for every arrival / decision script of the unified atomic tick (any hook kinds on the write
-   and read paths): an acknowledgement released in tick i is contained in every atomic
-   snapshot read in a tick j >= i *)
-Theorem sim_ack_implies_read_after_write : forall sc s obs i j acks resps acks' resps' w r snap,
-  run_sim_atomic s sc = Ok obs -> i <= j ->
+(* for every arrival / decision script of the unified atomic tick -- any number nw of write
+   hooks, any number of read hooks, any hook kinds -- an acknowledgement released in tick i is
+   contained in every atomic snapshot read in a tick j >= i *)
+Theorem sim_ack_implies_read_after_write : forall nw sc s obs i j acks resps acks' resps' w r snap,
+  run_sim_atomic nw s sc = Ok obs -> i <= j ->
   nth_error obs i = Some (acks, resps) -> In w acks ->
   nth_error obs j = Some (acks', resps') -> In (r, snap) resps' ->
   In w snap.
@@ -367,11 +366,11 @@ Proof.
     cbn [run_sim_atomic] in H.
   - inversion H; subst. destruct i; discriminate.
   - inv_bind H as [o s']. inv_bind H as os. inversion H; subst; clear H.
-    destruct (sim_astep_applied _ _ _ _ E) as [HA HS].
+    destruct (sim_astep_applied _ _ _ _ _ E) as [HA HS].
     destruct i as [|i]; cbn [nth_error] in Hi.
     + injection Hi as Ho. subst o. cbn [fst snd] in *.
       destruct j as [|j]; cbn [nth_error] in Hj.
       * injection Hj as Ho1 Ho2. subst acks' resps'. rewrite (HS _ _ Hr), HA. apply in_or_app. right; exact Hw.
-      * apply (run_sim_atomic_incl _ _ _ _ _ _ _ _ E0 Hj Hr). rewrite HA. apply in_or_app. right; exact Hw.
+      * apply (run_sim_atomic_incl _ _ _ _ _ _ _ _ _ E0 Hj Hr). rewrite HA. apply in_or_app. right; exact Hw.
     + destruct j as [|j]; [lia|]. cbn [nth_error] in Hj. eapply (IH s' os i j); eauto. lia.
 Qed.
